@@ -169,6 +169,48 @@ func workable() string {
 	return "ok"
 }
 
+func startFrom(r *result) (verdict string) {
+	defer func() {
+		if rec := recover(); rec != nil {
+			verdict = fmt.Sprintf("panic: %v", rec)
+		}
+	}()
+	lc, err := config.LoadOrDefault("var/config.json")
+	if err != nil {
+		r.Err = err.Error()
+		return "refused"
+	}
+	if _, err := json.Marshal(lc); err != nil {
+		return "loaded configuration cannot be encoded (GET /api/config): " + err.Error()
+	}
+	r.Vector = cfgkit.Vector(lc)
+	// Vector prints durations as nanoseconds
+	want, wantNs := "97s", "97000000000"
+	if r.Vector["cache.cleanup_interval"] == wantNs {
+		want, wantNs = "98s", "98000000000"
+	}
+	if _, err := config.UpdatePartialFromConfig(lc, map[string]any{"cache": map[string]any{"cleanup_interval": want}}); err != nil {
+		return "a valid update (cache.cleanup_interval=" + want + ") is refused on the loaded configuration: " + err.Error()
+	}
+	again, err := config.LoadOrDefault("var/config.json")
+	if err != nil {
+		return "after a valid update the file no longer loads: " + err.Error()
+	}
+	a, b := cfgkit.Vector(lc), cfgkit.Vector(again)
+	for k, v := range a {
+		if b[k] != v {
+			return fmt.Sprintf("after a valid update the file loads to %s=%s, running %s", k, b[k], v)
+		}
+	}
+	if a["cache.cleanup_interval"] != wantNs {
+		return "the valid update did not take effect: cache.cleanup_interval=" + a["cache.cleanup_interval"]
+	}
+	if w := workable(); w != "ok" {
+		return "not workable: " + w
+	}
+	return "ok"
+}
+
 func clip(s string) string {
 	if len(s) > 300 {
 		return s[:300]
@@ -289,6 +331,11 @@ func main() {
 			if lc, err := config.LoadOrDefault("var/config.json"); err == nil {
 				r.Vector = cfgkit.Vector(lc) // what the next start would run with
 			}
+		case "start-from":
+			// a start-up from whatever is on disk: load, then use the loaded configuration the way the running
+			// program does (serve it through the API encoder, accept a valid update and persist it, run a proxy)
+			os.WriteFile("var/config.json", []byte(c.Bytes), 0o644)
+			r.Probe = startFrom(&r)
 		case "load":
 			os.WriteFile("var/config.json", []byte(c.Bytes), 0o644)
 			before, _ := os.ReadFile("var/config.json")
